@@ -243,9 +243,7 @@ def create_dummy_in_mem_geff(
                     values = np.arange(num_nodes, dtype=prop_dtype)
                 else:  # float types
                     values = np.linspace(0.1, 1.0, num_nodes, dtype=prop_dtype)
-                prop_dict: PropDictNpArray = {"values": values, "missing": None}
-                node_props[prop_name] = prop_dict
-                node_prop_meta.append(create_props_metadata(prop_name, prop_dict))
+                node_props[prop_name] = {"values": values, "missing": None}
 
             elif isinstance(prop_value, np.ndarray):
                 # Use provided array directly
@@ -263,6 +261,10 @@ def create_dummy_in_mem_geff(
                     f"extra_node_props[{prop_name}] must be a string dtype or numpy array, "
                     f"got {type(prop_value)}"
                 )
+
+            node_prop_meta.append(
+                create_props_metadata(identifier=prop_name, prop_data=node_props[prop_name])
+            )
 
     # Generate edge properties
     edge_props_dict: dict[str, PropDictNpArray] = {}
